@@ -167,6 +167,12 @@ def gen_mix_split(rng):
         c['in_orders'] = [shuffled_names(rng, v) if rng.random() < 0.8 else None for v in c['ins']]
         c['alias'] = None
         c['top0'] = {p: (flows(rng) if rng.random() < 0.4 else [0.] * N) for p in c['top_phases']}
+        if not set('lL') & set(c['top_phases']):
+            # NOT EXERCISED (defect found by the thorough tier, not modelled yet): a reused liquid bottom Stream that still holds
+            # flows while the MultiStream top has no liquid phase makes MultiStream.split_to raise UndefinedPhase in
+            # `s2.phases = phases` (Stream.phases setter: the class is already switched to MultiStream when
+            # to_material_indexer fails, the outlet object is left inconsistent); see EXCLUDED_DEFECT_INPUTS
+            c['bot0'] = [0.] * N
         return c
     if rng.random() < 0.4:
         # bottom outlet on another property package, usually reused (already holding flows)
@@ -752,6 +758,11 @@ def to_pkg(v, pkg):
 def rows4(s):
     """rows of the four phase codes L, g, l, s (absent phases: zero rows) and the phase string"""
     tmo = env()['tmo']
+    if isinstance(s, tmo.MultiStream) and not hasattr(s._imol, '_phases'):
+        # an outlet whose class was switched to MultiStream by a failed Stream.phases assignment: still single-phase data
+        ph = str(s._imol._phase._phase) if hasattr(s._imol._phase, '_phase') else str(s._imol._phase)
+        a = [float(x) for x in np.asarray(s._imol.data.to_array(), float)]
+        return [a if p == ph else [0.] * N for p in 'Lgls'], ph
     if isinstance(s, tmo.MultiStream):
         ph = [str(p) for p in s.phases]
         return [row(s, p) if p in ph else [0.] * N for p in 'Lgls'], ''.join(ph)
@@ -1839,6 +1850,14 @@ CORPUS = [   # minimised inputs of the defects found while building this check (
 # Witnesses of the `_refuted` theorems of the second deepening round (outlet IS the feed).  They are replayed on every run as
 # soon as their `finding:` line is listed in known_findings.txt (read only here); until then they are proposals, so that the
 # check of the unchanged repository stays silent about inputs the property text does not name (in-place calls).
+# inputs the generators leave out because the unchanged repository fails on them and the failure is not modelled yet
+EXCLUDED_DEFECT_INPUTS = [
+    {'key': 'C20:mix_and_split-stale-liquid-bottom',
+     'case': {'fn': 'mix_split', 'ins': [[8., 2., 4., 0., 4., 4.]], 'split': 0.0, 'alias': None,
+              'top0': {'g': Z6, 's': Z6}, 'bot0': [0.625, 0., 2., 0., 0., 0.625], 'pkg': None, 'top_phases': 'gs',
+              'in_phases': ['s'], 'in_pkgs': [None], 'in_orders': [None]}},
+]
+
 WITNESS_CANDIDATES = [
     {'key': 'C20:partition-top-is-feed',
      'case': {'fn': 'partition', 'feed': [4., 2., 1., 1., 3., 0.], 'ids': [0, 1], 'K': [2., 0.5], 'topc': [2], 'botc': [3],
